@@ -8,7 +8,7 @@ MODEL_TARGETS = ["Model/Paych"]
 HARNESS = [
     {"bin": "paych", "tag": "paych",
      "quick": {"cases": 1600, "len": 30, "shards": 16},
-     "thorough": {"cases": 24000, "len": 45, "shards": 64},
+     "thorough": {"cases": 9600, "len": 40, "shards": 48},
      "search": {"cases": 6000, "len": 40}},
 ]
 TRUSTED_BASE = TRUSTED_BASE_COMMON + [
